@@ -91,8 +91,9 @@ func (simpleHTTPSelf *SimpleHTTPDef) SetHTTPClient(client *http.Client) {
 	if client.Transport == nil {
 		client.Transport = http.DefaultTransport
 	}
-	// Avoid setting up again next time
-	if client.Transport != simpleHTTPSelf.lastTransport {
+	// Avoid setting up again when this instance is already (directly or through
+	// other SimpleHTTP instances sharing the client) part of the client's transport chain
+	if !simpleHTTPSelf.isInTransportChain(client.Transport) {
 		// Keep old one
 		simpleHTTPSelf.clientTransport = client.Transport
 
@@ -103,6 +104,22 @@ func (simpleHTTPSelf *SimpleHTTPDef) SetHTTPClient(client *http.Client) {
 	}
 
 	simpleHTTPSelf.client = client
+}
+
+// isInTransportChain Check whether this instance is reachable from the given transport through wrapped SimpleHTTP instances
+func (simpleHTTPSelf *SimpleHTTPDef) isInTransportChain(transport http.RoundTripper) bool {
+	visited := map[*SimpleHTTPDef]bool{}
+	for {
+		wrapper, ok := transport.(*SimpleHTTPDef)
+		if !ok || wrapper == nil || visited[wrapper] {
+			return false
+		}
+		if wrapper == simpleHTTPSelf {
+			return true
+		}
+		visited[wrapper] = true
+		transport = wrapper.clientTransport
+	}
 }
 
 // RoundTrip Do RoundTrip things(interceptors)
